@@ -170,6 +170,57 @@ theorem C17_eval_exec (env : Env) (p : Prog) (σ : Bindings) : run env p σ = ex
   | exec p ih => simpa [run, Prog.inner] using ih
   | within w p ih => simpa [run, Prog.inner] using ih
 
+/-- **The option is read when the statement executes, not when the context was made.**  In a sequence of statements run
+by one long-lived evaluator with the option changed in between (any values, any number of changes), every step does
+exactly what a fresh run under the option value OF THAT MOMENT does on the symbol table the earlier steps left. -/
+theorem C17_option_is_live (env : Env) (pre rest : List (Bool × Prog)) (a : Bool) (p : Prog) (σ : Bindings) :
+    runSeq env (pre ++ (a, p) :: rest) σ =
+      runSeq env pre σ ++ run { env with allowAll := a } p (seqBinds env pre σ) ::
+        runSeq env rest (run { env with allowAll := a } p (seqBinds env pre σ)).binds := by
+  induction pre generalizing σ with
+  | nil => rfl
+  | cons x xs ih =>
+    obtain ⟨b, q⟩ := x
+    simp only [List.cons_append, runSeq, seqBinds, ih]
+
+/-- hence a refused name is refused in every import form as soon as the option is off – whatever the option was when
+the context was created or during earlier statements (in particular after `true → false`), binding nothing new; and
+with the option on the same statement imports (`false → true`). -/
+theorem C17_deny_after_option_change (env : Env) (pre : List (Bool × Prog)) (name : String)
+    (hlist : name ∉ Gen.ALLOWED_IMPORTS) (hpys : pysLookup env name = none) (asn : Option String) (σ : Bindings) :
+    (runSeq env (pre ++ [(false, .stmt (.imp [⟨name, asn⟩]))]) σ).getLast? =
+      some { binds := seqBinds env pre σ, err := some .notAllowed } ∧
+    (isStubs name = false → ∀ names,
+      (runSeq env (pre ++ [(false, .stmt (.impFrom (some name) 0 names))]) σ).getLast? =
+        some { binds := seqBinds env pre σ, err := some .notAllowed }) ∧
+    (∀ m, env.host name = some m →
+      (runSeq env (pre ++ [(true, .stmt (.imp [⟨name, asn⟩]))]) σ).getLast? =
+        some { binds := seqBinds env pre σ ++ [(asn.getD name, .mod m.id)], err := none }) := by
+  have hd := C17_deny { env with allowAll := false } name rfl hlist hpys asn (seqBinds env pre σ)
+  refine ⟨?_, ?_, ?_⟩
+  · rw [C17_option_is_live]
+    simp only [runSeq, List.getLast?_append, List.getLast?_singleton, Option.some_or, run, execStmt]
+    rw [hd.1 []]
+  · intro hs names
+    rw [C17_option_is_live]
+    simp only [runSeq, List.getLast?_append, List.getLast?_singleton, Option.some_or, run, execStmt]
+    rw [hd.2.2 hs names]
+  · intro m hm
+    rw [C17_option_is_live]
+    simp only [runSeq, List.getLast?_append, List.getLast?_singleton, Option.some_or, run, execStmt]
+    rw [(C17_allow { env with allowAll := true } name m asn (seqBinds env pre σ)
+      (Or.inr ⟨hpys, Or.inr rfl, hm⟩)).1]
+
+/-- non-vacuity: `import os` is permitted while the option is on, refused by the SAME evaluator after it was switched
+off (the earlier binding stays), and `from os import *` binds nothing then -/
+example :
+    let host : String → Option ModInfo := fun n => some { id := "host:" ++ n, attrs := ["getcwd", "_x"] }
+    let env : Env := { allowAll := true, relPath := none, ctxName := "file.t", files := [], host := host }
+    runSeq env [(true, .stmt (.imp [⟨"os", none⟩])), (false, .stmt (.imp [⟨"os", some "o"⟩])),
+                (false, .exec (.stmt (.impFrom (some "os") 0 [⟨"*", none⟩])))] [] =
+      [{ binds := [("os", .mod "host:os")], err := none }, { binds := [("os", .mod "host:os")], err := some .notAllowed },
+       { binds := [("os", .mod "host:os")], err := some .notAllowed }] := by decide
+
 /-- **Excluded builtins are never the host's.**  For every name in `BUILTIN_EXCLUDE`, and every name starting with
 `_` (`__import__`, `__builtins__`, …), plain-name lookup never yields the host builtin, whatever else is defined. -/
 theorem C17_builtins (ne : NameEnv) (x : String) (h : x ∈ Gen.BUILTIN_EXCLUDE ∨ x.front = '_') :
